@@ -58,8 +58,8 @@ Reset ==
 RestartLine ==
   /\ l <= Len(TraceLog) /\ Line.ev = "restart"
   /\ Restart
-  /\ Consume
   /\ rootKeys' = SetOf(Line.trusted)
+  /\ Consume
 
 CrashPc == CASE Line.crash = 0 -> "WriteTombstones"
              [] Line.crash = 1 -> "WriteState"
@@ -85,7 +85,7 @@ RunStep ==
      \/ pc # CrashPc /\ PublishOrClear
      \/ pc = CrashPc /\ Crash
   /\ IF pc' \in {"idle", "down"}
-       THEN Consume /\ ObservedNext(Line)
+       THEN ObservedNext(Line) /\ Consume      \* (the high-water mark moves only if the observation fits)
        ELSE l' = l
 
 TraceNext == Reset \/ RestartLine \/ RunStep
